@@ -144,8 +144,8 @@ def run(ctx, scale=1):
     # ---- oracle on generated statements: every gap, case policies, AS, semicolon
     g = GT.Gen(rng)
     fixed = GT.Gen(__import__("random").Random(20260930))      # seed-independent part: saturates the gap classes
-    n_fixed = (120 if ctx.quick else 700) * scale
-    n_rand = (120 if ctx.quick else 700) * scale
+    n_fixed = (120 if ctx.quick else 400) * scale
+    n_rand = (120 if ctx.quick else 400) * scale
     stmts = [fixed.statement() for _ in range(n_fixed)] + [g.statement() for _ in range(n_rand)]
     jobs = []       # (sql, meta)
     for si, (kind, toks) in enumerate(stmts):
